@@ -177,14 +177,14 @@ def _containers(rep, c, u, p, m, o, dw, fn, fname):
                 ok = isinstance(out, np.ndarray) and out.shape == (2,)
                 vals = list(out) if ok else None
             elif kind == 'dict':
-                out = _conv(fn, u, p, {'n1': x1, 'n2': x2}, m, o, dw)
-                ok = isinstance(out, dict) and list(out.keys()) == ['n1', 'n2']
-                vals = [out['n1'], out['n2']] if ok else None
+                out = _conv(fn, u, p, {'9': x1, '10': x2}, m, o, dw)
+                ok = isinstance(out, dict) and list(out.keys()) == ['9', '10']
+                vals = [out['9'], out['10']] if ok else None
             else:
-                df = pd.DataFrame({'a': [x1], 'b': [x2]}, index=[3600], dtype=object)
+                df = pd.DataFrame({'b': [x1], 'a': [x2]}, index=[3600], dtype=object)
                 out = _conv(fn, u, p, df, m, o, dw)
-                ok = isinstance(out, pd.DataFrame) and list(out.columns) == ['a', 'b'] and list(out.index) == [3600]
-                vals = [out.loc[3600, 'a'], out.loc[3600, 'b']] if ok else None
+                ok = isinstance(out, pd.DataFrame) and list(out.columns) == ['b', 'a'] and list(out.index) == [3600]
+                vals = [out.loc[3600, 'b'], out.loc[3600, 'a']] if ok else None
         except Exception as ex:  # the documented container is rejected
             cex(kind, 'raised %s: %s' % (type(ex).__name__, ex))
             continue
@@ -201,7 +201,7 @@ def run(rep, only=None):
                FlowUnits.is_traditional.fget, FlowUnits.is_metric.fget, FlowUnits.factor.fget, MassUnits.factor.fget)
     rep.bound('value: any real (float rounding outside the claim; replay tolerance 1e-12 relative)')
     rep.bound('flow units x parameters x mass units x reaction orders {0,1,2} x darcy_weisbach: enumerated completely')
-    rep.bound('containers of 2 entries (list, object ndarray, dict, DataFrame for HydParam)')
+    rep.bound('containers of 2 entries (list, object ndarray, dict, DataFrame for HydParam); dict keys / columns inserted in an order that is not their sorted order')
     rep.assume('Python floats modelled as reals; factors computed by the code in floating point enter exactly as the floats they are')
     rep.assume('oracle table: 1 gal=3.785411784 L, 1 imp gal=4.54609 L, 1 ft=0.3048 m, 1 acre-ft=43560 ft3, 1 psi=0.3048/0.4333 m, '
                '1 hp=745.699872 W; tolerance 1e-8 relative (1e-5 for the ft2 constant)')
@@ -281,15 +281,15 @@ def replay_container(i):
                 return 'ndarray came back as %s' % type(out).__name__
             v = list(out)
         elif k == 'dict':
-            out = f(u, {'n1': x1, 'n2': x2}, p, **kw)
-            if not isinstance(out, dict) or list(out) != ['n1', 'n2']:
+            out = f(u, {'9': x1, '10': x2}, p, **kw)
+            if not isinstance(out, dict) or list(out) != ['9', '10']:
                 return 'dict came back as %r' % (out,)
-            v = [out['n1'], out['n2']]
+            v = [out['9'], out['10']]
         else:
-            out = f(u, pd.DataFrame({'a': [x1], 'b': [x2]}, index=[3600]), p, **kw)
-            if not isinstance(out, pd.DataFrame) or list(out.columns) != ['a', 'b'] or list(out.index) != [3600]:
+            out = f(u, pd.DataFrame({'b': [x1], 'a': [x2]}, index=[3600]), p, **kw)
+            if not isinstance(out, pd.DataFrame) or list(out.columns) != ['b', 'a'] or list(out.index) != [3600]:
                 return 'DataFrame came back as %r' % (out,)
-            v = [out.loc[3600, 'a'], out.loc[3600, 'b']]
+            v = [out.loc[3600, 'b'], out.loc[3600, 'a']]
     except Exception as ex:
         return '%s(%s) raised %s: %s' % (i['fn'], k, type(ex).__name__, ex)
     if len(v) != 2 or not (_close(v[0], s1) and _close(v[1], s2)):
